@@ -1,0 +1,163 @@
+//go:build verif
+
+package verifhook
+
+import (
+	"fmt"
+	"sort"
+	"sync"
+
+	"github.com/IBM/sarama"
+
+	"github.com/linkedin/Burrow/core/internal/helpers"
+)
+
+// RealKafka is a scripted Kafka cluster made of sarama's own mock brokers (real TCP listeners on localhost) and a REAL
+// sarama.Client connected to them; the cluster module talks to it through Burrow's real shim
+// (helpers.BurrowSaramaClient), exactly as in production.
+type RealKafka struct {
+	mu      sync.Mutex
+	brokers map[int32]*sarama.MockBroker
+	seen    map[int32]int // history entries of each broker already accounted for
+	client  sarama.Client
+	shim    *helpers.BurrowSaramaClient
+	Errors  []string
+	layout  map[string]map[int32]int32
+	answers map[int32]*sarama.OffsetResponse
+}
+
+type realReporter struct{ k *RealKafka }
+
+func (r realReporter) note(s string) {
+	r.k.mu.Lock()
+	r.k.Errors = append(r.k.Errors, s)
+	r.k.mu.Unlock()
+}
+func (r realReporter) Error(a ...interface{})            { r.note(fmt.Sprint(a...)) }
+func (r realReporter) Errorf(f string, a ...interface{}) { r.note(fmt.Sprintf(f, a...)) }
+func (r realReporter) Fatal(a ...interface{})            { r.note(fmt.Sprint(a...)) }
+func (r realReporter) Fatalf(f string, a ...interface{}) { r.note(fmt.Sprintf(f, a...)) }
+func (r realReporter) Helper()                           {}
+
+// NewRealKafka starts brokers 1..n and connects a real sarama client to broker 1.
+func NewRealKafka(n int) (*RealKafka, error) {
+	k := &RealKafka{brokers: map[int32]*sarama.MockBroker{}, seen: map[int32]int{}, layout: map[string]map[int32]int32{}, answers: map[int32]*sarama.OffsetResponse{}}
+	for id := int32(1); id <= int32(n); id++ {
+		k.brokers[id] = sarama.NewMockBroker(realReporter{k}, id)
+	}
+	k.install()
+	cfg := sarama.NewConfig()
+	cfg.Metadata.Retry.Max = 0
+	cfg.Metadata.Retry.Backoff = 0
+	cfg.Metadata.RefreshFrequency = 0
+	cfg.Version = sarama.V0_10_2_0
+	client, err := sarama.NewClient([]string{k.brokers[1].Addr()}, cfg)
+	if err != nil {
+		k.Close()
+		return nil, err
+	}
+	k.client = client
+	k.shim = &helpers.BurrowSaramaClient{Client: client}
+	return k, nil
+}
+
+// install sets every broker's handlers from the current layout and answers.
+func (k *RealKafka) install() {
+	meta := sarama.NewMockMetadataResponse(realReporter{k})
+	for id, b := range k.brokers {
+		meta.SetBroker(b.Addr(), id)
+	}
+	for topic, parts := range k.layout {
+		for p, leader := range parts {
+			meta.SetLeader(topic, p, leader)
+		}
+	}
+	for id, b := range k.brokers {
+		answer := k.answers[id]
+		if answer == nil {
+			answer = &sarama.OffsetResponse{}
+		}
+		b.SetHandlerByMap(map[string]sarama.MockResponse{
+			"MetadataRequest": meta,
+			"OffsetRequest":   sarama.NewMockWrapper(answer),
+		})
+	}
+}
+
+// Script sets what the cluster looks like from now on: layout[topic][partition] = leader broker id (-1: no leader), and
+// what each broker answers to an offset request: exactly the given blocks.
+func (k *RealKafka) Script(layout map[string]map[int32]int32, answers map[int32][]BlockAnswer) {
+	k.layout = layout
+	k.answers = map[int32]*sarama.OffsetResponse{}
+	for id, blocks := range answers {
+		resp := &sarama.OffsetResponse{Blocks: map[string]map[int32]*sarama.OffsetResponseBlock{}}
+		for _, a := range blocks {
+			if resp.Blocks[a.Topic] == nil {
+				resp.Blocks[a.Topic] = map[int32]*sarama.OffsetResponseBlock{}
+			}
+			block := &sarama.OffsetResponseBlock{Err: sarama.ErrNoError, Offsets: []int64{a.Offset}, Offset: a.Offset}
+			if a.Err {
+				block = &sarama.OffsetResponseBlock{Err: sarama.ErrNotLeaderForPartition, Offsets: []int64{}}
+				if a.Code != 0 {
+					block.Err = sarama.KError(a.Code)
+				}
+			}
+			resp.Blocks[a.Topic][a.Partition] = block
+		}
+		k.answers[id] = resp
+	}
+	k.install()
+}
+
+// MoveBroker brings broker id back on a new address (same id): what a rescheduled broker does.
+func (k *RealKafka) MoveBroker(id int32) {
+	if old, ok := k.brokers[id]; ok {
+		old.Close()
+	}
+	k.brokers[id] = sarama.NewMockBroker(realReporter{k}, id)
+	k.seen[id] = 0
+	k.install()
+}
+
+// Since reports what the brokers were asked since the last call: the number of all-topics metadata requests, and the
+// offset-request blocks per broker.
+func (k *RealKafka) Since() (fullRefreshes int, asked map[int32][]TopicPartition) {
+	asked = map[int32][]TopicPartition{}
+	for id, b := range k.brokers {
+		hist := b.History()
+		for _, rr := range hist[k.seen[id]:] {
+			switch q := rr.Request.(type) {
+			case *sarama.MetadataRequest:
+				if len(q.Topics) == 0 {
+					fullRefreshes++
+				}
+			case *sarama.OffsetRequest:
+				asked[id] = append(asked[id], requestBlocks(q)...)
+			}
+		}
+		k.seen[id] = len(hist)
+	}
+	for id := range asked {
+		tps := asked[id]
+		sort.Slice(tps, func(i, j int) bool {
+			if tps[i].Topic != tps[j].Topic {
+				return tps[i].Topic < tps[j].Topic
+			}
+			return tps[i].Partition < tps[j].Partition
+		})
+	}
+	return fullRefreshes, asked
+}
+
+// Close stops the client and the brokers.
+func (k *RealKafka) Close() {
+	if k.client != nil {
+		_ = k.client.Close()
+	}
+	for _, b := range k.brokers {
+		b.Close()
+	}
+}
+
+// GetOffsetsReal runs one refresh cycle against the real sarama client, through Burrow's real shim.
+func (c *KafkaCluster) GetOffsetsReal(k *RealKafka) { c.m.VerifGetOffsets(k.shim) }
